@@ -854,6 +854,8 @@ def compare_chunk(args):
         kw_name = "KW:name" in kinds.split(",")
         if opts.get("c02") and req.get("err") is None and not kw_name:
             c02_model_free(case, kinds, req, kw_path, stats, report, viol)
+            if opts.get("c02_fslash") and (kw_path or zlib_mod(text, 3) == 0):
+                c02_fslash(case, kinds, items, segs, req, stats, report, viol)
         if oom:
             stats["oom"] += 1
             continue
@@ -1081,6 +1083,46 @@ def c02_model_free(case, kinds, req, kw_path, stats, report, viol):
     c02_direct(case, kinds, opt, stats, report, viol, "optional:", seen)
 
 
+def zlib_mod(text, n):
+    import zlib
+    return zlib.crc32(text.encode("utf-8")) % n
+
+
+def c02_fslash(case, kinds, items, segs, req, stats, report, viol):
+    """"This holds in both notations": the same query WRITTEN in forward-slash notation (when the real parser reads it as the
+    same segments).  Its results must be located the same way - parent[parentref] is the node, the ancestry walks from the
+    root, the reported path (as it is, and rendered in either notation) re-resolves to the node.  Results reporting the same
+    node with the same path as the dot query are judged there already; anything else is judged here on the real code."""
+    stext = path_text(items, True)
+    ssegs = with_timer(lambda: parse_segments(stext))
+    if ssegs is None or ssegs != with_timer(lambda: parse_segments(case["path"])):
+        stats["fslash_skipped"] = stats.get("fslash_skipped", 0) + 1
+        return
+    sreq, _sd, _st = run_query(case["doc"], stext, "req")
+    stats["queries"] += 1
+    stats["fslash_judged"] = stats.get("fslash_judged", 0) + 1
+    scase = dict(case, path=stext, dot_path=case["path"], notation="fslash")
+    if sreq.get("err") is not None:
+        stats["fslash_query_raises"] = stats.get("fslash_query_raises", 0) + 1
+        return          # the two notations selecting differently is C01's subject (notation-differs), a crash C15's
+    # a result that the dot query reports identically (same node, same path and renderings, same ancestry verdict, and the
+    # same coordinate problems for the query as a whole) is judged there - also against the known findings
+    same_probs = sorted(sreq.get("problems") or []) == sorted(req.get("problems") or [])
+    if not same_probs:
+        sprobs = sreq["problems"] if sreq.get("problems") else ["coordinate-problems-differ-from-dot-query"]
+        report(viol, "c02:fslash:%s:%s" % (sprobs[0], kinds), "result coordinates of %r: %s (the dot query %r: %s)" % (
+            stext, sprobs, case["path"], req.get("problems") or "none"), dict(scase, impl=sreq, prop="C02"))
+    finger = lambda ir: json.dumps([ir.get("a"), ir.get("path"), ir.get("rendered"), ir.get("anc_walk")], sort_keys=True)  # noqa: E731
+    seen = {finger(ir) for ir in req["res"] if "v" not in ir}
+    fresh = [ir for ir in sreq["res"] if "v" in ir or finger(ir) not in seen]
+    stats["fslash_results"] = stats.get("fslash_results", 0) + len(sreq["res"])
+    if fresh:
+        before = stats.get("opt_results", 0)
+        c02_direct(scase, kinds, {"res": fresh}, stats, report, viol, "fslash:")
+        stats["fslash_fresh_results"] = stats.get("fslash_fresh_results", 0) + stats.get("opt_results", 0) - before
+        stats["opt_results"] = before
+
+
 def c02_direct(case, kinds, req, stats, report, viol, mode="", seen=(), tag="kw"):
     """The property's clauses judged on the real code alone (keyword paths without [name()]; results of the optional
     mode, mode="optional:").  parent[parentref] is the node (canon_nc -> problems, reported by the caller); the ancestry
@@ -1148,18 +1190,41 @@ def selects_only_scalars(doc, operand):
     return True
 
 
+def gathers_only_scalars(doc, operand):
+    """Does the operand path select scalars, or lists / sets all of whose members are scalars?  (A collector expands such
+    a list into its members: what the operand contributes to the collection is scalars only.)"""
+    from yamlpath import Processor
+    from yamlpath.wrappers import NodeCoords
+    d = codec.json_to_ruamel(doc)
+    p = Processor(core.quiet_logger(), d)
+    try:
+        for nc in p.get_nodes(operand, mustexist=True):
+            v = NodeCoords.unwrap_node_coords(nc)
+            if isinstance(v, dict):
+                return False
+            if isinstance(v, (list, set)) and any(isinstance(NodeCoords.unwrap_node_coords(x), (dict, list, set)) for x in v):
+                return False
+    except Timeout:
+        raise
+    except Exception:
+        return True     # an operand that raises is judged by the whole query
+    return True
+
+
 def collector_chunk(args):
     """cases: (doc, operands, text).  Direct C15 check of collector paths whose operands select scalars;
-    the evaluator model does not cover collectors (counted out of model)."""
+    the evaluator model does not cover collectors (counted out of model).  opts["expand_lists"]: an operand may also
+    select lists of scalars (the collector expands them into their scalar members)."""
     cases, _opts = args
     core.use_repo()
     stats = {"n": 0, "in_quantifier": 0, "nonscalar_operand": 0, "crash_outside_quantifier": 0, "mutated": 0, "ok": 0, "ypath": 0}
     viol = []
     per_sig = {}
+    pred = gathers_only_scalars if _opts.get("expand_lists") else selects_only_scalars
     for doc, operands, text in cases:
         stats["n"] += 1
         try:
-            scalar_only = with_timer(lambda: all(selects_only_scalars(doc, o) for o in operands))
+            scalar_only = with_timer(lambda: all(pred(doc, o) for o in operands))
         except Timeout:
             scalar_only = True
         for mode in ("req", "exists"):
@@ -1225,7 +1290,7 @@ def keyword_chunk(args):
                 n = per_sig.get(sig, 0)
                 per_sig[sig] = n + 1
                 if n < 3:
-                    viol.append((sig, "%s query %r (keyword segment) raised %s at %s" % (mode, text, e, out.get("site")),
+                    viol.append((sig, "%s query %r (%s) raised %s at %s" % (mode, text, _opts.get("what", "keyword segment"), e, out.get("site")),
                                  {"doc": doc, "path": text, "items": items, "prop": "C15", "impl": out}))
     return stats, viol
 
